@@ -1006,7 +1006,7 @@ func C03() *check.Property {
 		Title:    "Teardown runs exactly once; closed subscriptions hold nothing upstream",
 		Patterns: cat(CorePatterns, PluginPkgs, IOPluginPkgs, []string{PromPkg}, RatePkgs),
 		Scope:    append([]string{ro}, IOPluginPkgs...),
-		Rules:    []check.Rule{ruleRelease(), ruleSelfUnsubscribe(), ruleAddTeardown(), ruleFinalizerDiscipline(), ruleTeardownAllRun(), ruleStateLevel(), ruleNoEmitUnderTeardownLock(), ruleCoreDelivers(), ruleNilGuardPolarity(), ruleAwaitedRegistered(), ruleSubjectDelivers(), ruleAddAfterClose(), ruleGoLateRegistration(), ruleCancelObserved(), ruleDownstreamLink(), ruleTerminalReleaseAgreement(), ruleExternalAcquireReleased()},
+		Rules:    []check.Rule{ruleRelease(), ruleSelfUnsubscribe(), ruleAddTeardown(), ruleFinalizerDiscipline(), ruleTeardownAllRun(), ruleStateLevel(), ruleNoEmitUnderTeardownLock(), ruleCoreDelivers(), ruleNilGuardPolarity(), ruleAwaitedRegistered(), ruleSubjectDelivers(), ruleAddAfterClose(), ruleGoLateRegistration(), ruleCancelObserved(), ruleDownstreamLink(), ruleTerminalReleaseAgreement(), ruleExternalAcquireReleased(), rulePositionStable()},
 		Explanation: "Static ownership/typestate check. RELEASE builds, per subscribe closure, a resource graph (subscriptions returned by subscribe sites, composite subscriptions, slices of subscriptions, timers, goroutines with their stop channels) " +
 			"and proves that every acquisition reaches a node that the operator's teardown chain unsubscribes/stops/closes (teardown closures count only when the subscription they were Add()ed to is itself released), or is awaited. " +
 			"SELF-UNSUBSCRIBE, ADD-TEARDOWN and FINALIZER-DISCIPLINE check the three core mechanisms the chain relies on: a subscriber runs its finalizers after every terminal notification (outside the producer lock), the subscribe function's " +
@@ -1014,7 +1014,7 @@ func C03() *check.Property {
 		NotDecided:  "exactly-once under races beyond the guarded-by discipline (it follows from done being swapped under the mutex); the timing of goroutine quiescence; resources other than subscriptions, timers, goroutines and channels.",
 		Assumptions: []string{"sync.Mutex semantics", "upstream observables honour their own teardown (induction over the pipeline)"},
 		Floors:      map[string]int{"acquisitions": 150, "field_accesses": 8, "teardown_closures": 15},
-		Controls:    map[string]string{"zz_verif_controls_c03.go": roControl(controlsC03 + controlsC03b + controlsCancelObserved + controlsTerminalRelease + controlsExternalAcquire), "zz_verif_controls_c12.go": roControl(controlsC12), "zz_verif_controls_c06.go": roControl(controlsC06), "zz_verif_controls_nilguard.go": roControl(controlsNilGuard), "zz_verif_controls_c05.go": roControl(controlsC05)},
+		Controls:    map[string]string{"zz_verif_controls_c03.go": roControl(controlsC03 + controlsC03b + controlsCancelObserved + controlsTerminalRelease + controlsExternalAcquire + controlsPositionStable), "zz_verif_controls_c12.go": roControl(controlsC12), "zz_verif_controls_c06.go": roControl(controlsC06), "zz_verif_controls_nilguard.go": roControl(controlsNilGuard), "zz_verif_controls_c05.go": roControl(controlsC05)},
 	}
 }
 
